@@ -42,14 +42,65 @@ Fixpoint has_line_anchor (h : hir) : bool :=
   | _ => false
   end.
 
-(* ---- DfaValidator by contract (validator/dfa.rs, standard runner) *)
+(* ---- DfaValidator by contract (validator/dfa.rs) *)
 Definition hir_for (mt : mtype) (h : hir) : hir := if is_wide_mt mt then widen_hir h else h.
 
+(* custom wide runner (`find_wide_anchored_fwd`): the DFA of the plain pattern is stepped over the
+   bytes start, start+2, ... as long as each is followed by a NUL inside [start, lim); the state
+   before the first byte knows the previous wide character (when mem[start-1] = 0), the end of the
+   walk is treated as end of input.  I.e. an anchored leftmost-first search on a virtual haystack. *)
+Fixpoint wide_run (fuel : nat) (mem : list N) (i lim : N) : list N :=
+  match fuel with
+  | O => []
+  | S f =>
+      if (i + 1 <? lim) && is_nul_at mem (i + 1) then
+        match byte_at mem i with Some b => b :: wide_run f mem (i + 2) lim | None => [] end
+      else []
+  end.
+
+Definition custom_wide_fwd (fl : rflags) (h : hir) (mem : list N) (start lim : N) : option N :=
+  let prev := if (2 <=? start) && is_nul_at mem (start - 1)
+              then match byte_at mem (start - 2) with Some b => [b] | None => [] end else [] in
+  let u := prev ++ wide_run (S (length mem)) mem start lim in
+  let base := nlen prev in
+  match lf_end fl u h base (nlen u) with
+  | Some j => Some (start + 2 * (j - base))
+  | None => None
+  end.
+
+(* `find_wide_anchored_rev`: bytes e-2, e-4, ... as long as each is followed by a NUL and at least
+   two bytes remain above lo; both ends of the walk are treated as ends of input *)
+Fixpoint wide_run_rev (fuel : nat) (mem : list N) (lo i : N) (acc : list N) : N * list N :=
+  match fuel with
+  | O => (i, acc)
+  | S f =>
+      if (lo + 2 <=? i) && is_nul_at mem (i - 1) then
+        match byte_at mem (i - 2) with
+        | Some b => wide_run_rev f mem lo (i - 2) (b :: acc)
+        | None => (i, acc)
+        end
+      else (i, acc)
+  end.
+
+Definition custom_wide_rev (fl : rflags) (h : hir) (mem : list N) (lo e : N) : option N :=
+  let '(i0, u) := wide_run_rev (S (length mem)) mem lo e [] in
+  match rev_min_start fl u h 0 (nlen u) with
+  | Some s => Some (i0 + 2 * s)
+  | None => None
+  end.
+
+Definition use_custom (md : mods) (h : hir) (mt : mtype) : bool :=
+  m_wide md && has_word_boundary h && is_wide_mt mt.
+
 Definition dfa_fwd (md : mods) (h : hir) (mt : mtype) (mem : list N) (start lim : N) : option N :=
-  lf_end (flags_of md) mem (hir_for mt h) start lim.
+  if use_custom md h mt then custom_wide_fwd (flags_of md) h mem start lim
+  else lf_end (flags_of md) mem (hir_for mt h) start lim.
 
 Definition dfa_rev (md : mods) (h : hir) (mt : mtype) (mem : list N) (lo e : N) : option N :=
-  if lo <=? e then rev_min_start (flags_of md) mem (hir_for mt h) lo e else None.
+  if lo <=? e then
+    (if use_custom md h mt then custom_wide_rev (flags_of md) h mem lo e
+     else rev_min_start (flags_of md) mem (hir_for mt h) lo e)
+  else None.
 
 (* ---- validate_match *)
 Section Validate.
